@@ -20,6 +20,38 @@ use std::panic::{catch_unwind, AssertUnwindSafe};
 use std::sync::Mutex;
 
 
+/// which internal stage answered the last float parse (verification hooks in lexical-util, --cfg lexical_verif)
+#[cfg(lexical_verif)]
+pub fn parse_tier_name() -> &'static str {
+    match lexical_util::verif::take_parse_tier() {
+        lexical_util::verif::PARSE_FAST => "fast",
+        lexical_util::verif::PARSE_MODERATE => "moderate",
+        lexical_util::verif::PARSE_SLOW => "slow",
+        lexical_util::verif::PARSE_SPECIAL => "special",
+        _ => "none",
+    }
+}
+#[cfg(not(lexical_verif))]
+pub fn parse_tier_name() -> &'static str {
+    "unknown"
+}
+
+#[cfg(lexical_verif)]
+pub fn write_tier_name() -> &'static str {
+    match lexical_util::verif::take_write_tier() {
+        lexical_util::verif::WRITE_DRAGONBOX_NORMAL => "dragonbox_normal",
+        lexical_util::verif::WRITE_DRAGONBOX_SHORTER => "dragonbox_shorter",
+        lexical_util::verif::WRITE_GRISU => "grisu",
+        lexical_util::verif::WRITE_BINARY => "binary",
+        lexical_util::verif::WRITE_RADIX => "radix",
+        _ => "none",
+    }
+}
+#[cfg(not(lexical_verif))]
+pub fn write_tier_name() -> &'static str {
+    "unknown"
+}
+
 pub fn feat_json() -> Value {
     json!({"std":cfg!(feature = "std"),"compact":cfg!(feature = "compact"),
            "pow2":cfg!(feature = "pow2"),"radix":cfg!(feature = "radix"),"format":cfg!(feature = "format"),
@@ -309,6 +341,7 @@ fn do_parse<T: Num, const F: u128>(c: &Value) -> Value {
     let facade = c.get("api").and_then(|x| x.as_str()) == Some("facade");
     let has_opts = c.get("wo").and_then(|x| x.as_bool()).unwrap_or(false);
     let mut extra = Map::new();
+    let _ = parse_tier_name();
     let res = {
         let s: &[u8] = g.slice();
         let r = catch_unwind(AssertUnwindSafe(|| -> Value {
@@ -362,6 +395,7 @@ fn do_parse<T: Num, const F: u128>(c: &Value) -> Value {
     let mut ev = Map::new();
     ev.insert("res".into(), res);
     ev.insert("len".into(), Value::from(input.len() as u64));
+    ev.insert("tier".into(), Value::from(parse_tier_name()));
     if c.get("std").and_then(|x| x.as_bool()).unwrap_or(false) {
         ev.insert("std".into(), T::std_parse(&input));
     }
@@ -440,6 +474,7 @@ fn do_write<T: Num, const F: u128>(c: &Value) -> Value {
         }
     };
     ev.insert("res".into(), res);
+    ev.insert("tier".into(), Value::from(write_tier_name()));
     if c.get("std").and_then(|x| x.as_bool()).unwrap_or(false) {
         ev.insert("std".into(), v.std_write());
     }
